@@ -24,6 +24,7 @@ import (
 	"os"
 	"path/filepath"
 	"regexp"
+	goruntime "runtime"
 	"sort"
 	"strconv"
 	"strings"
@@ -136,22 +137,74 @@ func (s *sentinel) reset() {
 	}
 }
 
-// settle: forget whatever happened so far (children, file events), back to the canonical state
-func (s *sentinel) settle() {
-	if reapChildren() {
-		time.Sleep(20 * time.Millisecond)
-		reapChildren()
-	}
-	if s.w != nil {
-		changed, _ := s.w.poll()
-		if len(changed) > 0 {
+// closeCase ends the observation window of one case (or of a piece of harness bookkeeping).  In this order:
+//  1. wait until the process has no children left (what a spawned child does to the directory has then happened);
+//  2. read the inotify queue: events are queued synchronously by whoever makes the file system call, so everything
+//     the case did in this process, and everything its children did, is in the queue now;
+//  3. an effect on the file system is a NET change of the directory against its canonical state (events without a
+//     net change come from finalisers of earlier runtimes closing files that restore() had already unlinked);
+//  4. if anything happened, force the releases that belong to this case (Go GC + golua finalisers: temp files, open
+//     handles), put the directory back and re-establish the watches;
+//  5. barrier: create and remove a marker file and read the queue until the marker's removal has been seen — the
+//     harness's own directory walks, restores and the marker itself are thereby consumed, and the next window
+//     starts with an empty queue.
+// Returns: had children, net change (""), names opened/read (only meaningful when there is no net change).
+func (s *sentinel) closeCase(release func()) (proc bool, change string, opened []string) {
+	proc = reapChildren()
+	if s.w == nil {
+		change = s.diff()
+		if change != "" || proc {
+			if release != nil {
+				release()
+				reapChildren()
+			}
 			s.restore()
 		}
 		return
 	}
-	if s.diff() != "" {
+	changed, opened := s.w.poll()
+	if len(changed) > 0 {
+		change = s.diff()
+	}
+	if change != "" || proc {
+		if release != nil {
+			release()
+			reapChildren()
+		}
 		s.restore()
 	}
+	s.barrier()
+	return proc, change, opened
+}
+
+var barrierSeq int
+
+// barrier: see closeCase
+func (s *sentinel) barrier() {
+	if s.w == nil {
+		return
+	}
+	barrierSeq++
+	name := fmt.Sprintf(".barrier-%d", barrierSeq)
+	p := filepath.Join(s.dir, name)
+	fd, err := syscall.Open(p, syscall.O_CREAT|syscall.O_WRONLY|syscall.O_CLOEXEC, 0o600)
+	if err != nil {
+		s.w.poll()
+		return
+	}
+	syscall.Close(fd)
+	syscall.Unlink(p)
+	for i := 0; i < 1000; i++ {
+		if s.w.drainUntilRemoved(name) {
+			return
+		}
+		time.Sleep(100 * time.Microsecond)
+	}
+}
+
+// settle: close a window whose events belong to harness bookkeeping (building a runtime, probes)
+func (s *sentinel) settle() {
+	s.closeCase(nil)
 }
 
 func (s *sentinel) rewatch() {
@@ -184,6 +237,37 @@ func (w *watcher) add(path, rel string) {
 	wd, err := syscall.InotifyAddWatch(w.fd, path, inMask)
 	if err == nil {
 		w.wds[int32(wd)] = rel
+	}
+}
+
+// drainUntilRemoved discards queued events; true once the removal (IN_DELETE) of `name` in the root has been read
+func (w *watcher) drainUntilRemoved(name string) bool {
+	var buf [16384]byte
+	seen := false
+	for {
+		n, err := syscall.Read(w.fd, buf[:])
+		if n <= 0 || err != nil {
+			return seen
+		}
+		off := 0
+		for off+16 <= n {
+			mask := uint32(buf[off+4]) | uint32(buf[off+5])<<8 | uint32(buf[off+6])<<16 | uint32(buf[off+7])<<24
+			l := int(uint32(buf[off+12]) | uint32(buf[off+13])<<8 | uint32(buf[off+14])<<16 | uint32(buf[off+15])<<24)
+			nm := strings.TrimRight(string(buf[off+16:off+16+l]), "\x00")
+			off += 16 + l
+			if mask&0x200 != 0 && nm == name {
+				seen = true
+			}
+		}
+		if seen {
+			// keep reading until the queue is empty
+			for {
+				n, err := syscall.Read(w.fd, buf[:])
+				if n <= 0 || err != nil {
+					return true
+				}
+			}
+		}
 	}
 }
 
@@ -299,29 +383,62 @@ func (s *sentinel) restore() {
 	s.rewatch()
 }
 
-// children reports whether this process has any child process (running or zombie) and reaps them.
+// reapChildren waits until this process has NO child process left (running or zombie) and reports whether there
+// was one.  A child started by the case (io.popen) is thereby finished — and whatever it does to the sentinel
+// directory has happened — before the case is closed; nothing of it can spill into the next case.  Children that
+// do not finish within 3 s are killed (found through /proc).
 func reapChildren() bool {
 	found := false
-	for i := 0; i < 64; i++ {
+	deadline := time.Now().Add(3 * time.Second)
+	killed := false
+	for {
 		var ws syscall.WaitStatus
 		pid, err := syscall.Wait4(-1, &ws, syscall.WNOHANG, nil)
-		if err == syscall.ECHILD {
-			return found
+		if err == syscall.EINTR {
+			continue
 		}
-		if err != nil {
+		if err != nil { // ECHILD: no children at all
 			return found
 		}
 		found = true
-		if pid == 0 {
-			// running children: give them a moment, then insist
-			time.Sleep(5 * time.Millisecond)
-			if i > 20 {
-				syscall.Kill(0, 0)
-				return true
+		if pid != 0 {
+			continue // reaped one, look for more
+		}
+		// children exist and are still running
+		if time.Now().After(deadline) && !killed {
+			killChildren()
+			killed = true
+			deadline = time.Now().Add(3 * time.Second)
+		} else if time.Now().After(deadline) {
+			return found
+		}
+		time.Sleep(500 * time.Microsecond)
+	}
+}
+
+func killChildren() {
+	self := os.Getpid()
+	ents, _ := os.ReadDir("/proc")
+	for _, en := range ents {
+		pid, err := strconv.Atoi(en.Name())
+		if err != nil || pid == self {
+			continue
+		}
+		b, err := os.ReadFile("/proc/" + en.Name() + "/stat")
+		if err != nil {
+			continue
+		}
+		// pid (comm) state ppid ...
+		st := string(b)
+		if i := strings.LastIndex(st, ")"); i >= 0 {
+			f := strings.Fields(st[i+1:])
+			if len(f) >= 2 {
+				if pp, _ := strconv.Atoi(f[1]); pp == self {
+					syscall.Kill(pid, syscall.SIGKILL)
+				}
 			}
 		}
 	}
-	return found
 }
 
 // ---------------------------------------------------------------------------
@@ -745,36 +862,24 @@ func (e *env) oneCase(fi *fnInfo, F int, sp string, t tuple) (outcome, effect st
 	if !strings.HasSuffix(fi.sym, "/iolib.popen") && e.inspect(handed) {
 		effect = "read"
 	}
-	if reapChildren() {
+	handed = nil
+	proc, change, opened := e.sent.closeCase(func() {
+		// the case is over: what it opened or created is released now, not during some later case
+		e.r.MainThread().CollectGarbage()
+		goruntime.Gosched()
+		e.r.MainThread().CollectGarbage()
+	})
+	if proc {
 		effect = "proc"
-		time.Sleep(20 * time.Millisecond)
-		reapChildren()
 	}
-	if e.sent.w != nil {
-		changed, opened := e.sent.w.poll()
-		// inotify is only the trigger: an effect is a NET change of the directory (events without one come from
-		// finalisers of earlier cases closing temp files that were already removed by restore())
-		d := ""
-		if len(changed) > 0 {
-			d = e.sent.diff()
-		}
-		if d != "" {
-			if effect == "none" || effect == "read" {
-				effect = "fs:" + d
-			} else {
-				effect += "+fs:" + d
-			}
-			e.sent.restore()
-		} else if len(opened) > 0 && effect == "none" {
-			effect = "open:" + strings.Join(opened, ",")
-		}
-	} else if d := e.sent.diff(); d != "" {
+	if change != "" {
 		if effect == "none" || effect == "read" {
-			effect = "fs:" + d
+			effect = "fs:" + change
 		} else {
-			effect += "+fs:" + d
+			effect += "+fs:" + change
 		}
-		e.sent.restore()
+	} else if len(opened) > 0 && effect == "none" {
+		effect = "open:" + strings.Join(opened, ",")
 	}
 	return
 }
